@@ -102,7 +102,7 @@ theorem C07_slice_array (t : Bool) (items full xs : List Val) (l r : Option Nat)
   simp [slice, h]
 
 /-- **C07_slice_total.** Full statement for slices: never a panic, for every item list and all bounds (the code after
-the repair of C08's defects `slice-left-greater-than-right-panics`, `slice-left-past-end-panics`: BugStalker 6b37ef0). -/
+the repair of C08's defects `slice-left-greater-than-right-panics`, `slice-left-past-end-panics`: BugStalker ccf13b4). -/
 theorem C07_slice_total (items : List Val) (l r : Option Nat) (c : String) : sliceItems items l r ≠ .panic c := by
   unfold sliceItems
   simp only []
